@@ -56,6 +56,18 @@ func c12Cells(tier string) []Cell {
 		}
 	}
 
+	// a memory limit that IS exceeded (one byte of heap) together with a count limit: the count breach still decides
+	// how much goes (appended: the indices of the cells above stay what they were)
+	for _, b := range backendKinds {
+		for s := 0; s < 3; s++ {
+			for _, l := range []int{2, 6} {
+				for _, f := range []float64{0.25, 0.5} {
+					cells = append(cells, Cell{ID: c12Cell{Backend: b, Strategy: s, Limit: l, Frac: f, Needed: "nil", Mem: "heap1"}.id()})
+				}
+			}
+		}
+	}
+
 	return cells
 }
 
@@ -126,6 +138,12 @@ func c12One(cc c12Cell, cs c12Case) (string, string, string, int) {
 	// a soft limit of 2^62 bytes is configured but can never be exceeded: it must not cause eviction
 	if cc.Mem == "heap" || cc.Mem == "both" {
 		cfg.HeapInUseSoftLimit = 1 << 62
+	}
+
+	// a heap limit of one byte is exceeded in every cycle: each cycle evicts - EvictFraction of the entries, or, if
+	// the count limit is exceeded too, down to the count target
+	if cc.Mem == "heap1" {
+		cfg.HeapInUseSoftLimit = 1
 	}
 
 	if cc.Mem == "sys" || cc.Mem == "both" {
@@ -301,7 +319,7 @@ func c12One(cc c12Cell, cs c12Case) (string, string, string, int) {
 
 		removed := n - len(kept)
 		breach := n > cc.Limit
-		needed := cc.Needed == "true"
+		needed := cc.Needed == "true" || cc.Mem == "heap1"
 
 		if !breach && !needed {
 			if removed != 0 {
